@@ -44,6 +44,19 @@ def handle (args : List String) : String :=
       let some d := d.toNat? | return "bad-op"
       if d < 2 then return "error:assert"
       return "|".intercalate ((allGellmann (floatScalars d) d).map fun M => qiListStr (matToList M))
+  | ["all", d, w] => Id.run do
+      -- `all_gellmann_matrix(d, with_I=w)`
+      let some d := d.toNat? | return "bad-op"
+      let some w := w.toNat? | return "bad-op"
+      if d < 2 then return "error:assert"
+      return "|".intercalate ((allGellmannOpt (floatScalars d) d (w != 0)).map fun M => qiListStr (matToList M))
+  | ["allt", d, w] => Id.run do
+      -- `all_gellmann_matrix(d, tensor_n=2, with_I=w)`: `d⁴` (or `d⁴-1`) matrices of size `d²×d²`, row-major
+      let some d := d.toNat? | return "bad-op"
+      let some w := w.toNat? | return "bad-op"
+      if d < 2 then return "error:assert"
+      let S := floatScalars d
+      return "|".intercalate ((allGellmannT2 S d (w != 0)).map fun M => qiListStr (matToList M))
   | ["ana", d, a] => Id.run do
       let some d := d.toNat? | return "bad-op"
       let some a := parseQIList? a | return "bad-op"
